@@ -129,7 +129,16 @@ theorem cwd_beyond_path_max_not_enobufs (v : List Byte) (size : Nat) (hv : scrat
   have h0' : ¬ size = 0 := by omega
   have h1 : ¬ v.length + 1 ≤ size := by omega
   have h2 : ¬ v.length + 1 ≤ scratchCap := by omega
-  simp [cwd, h0', h1, h2]
+  simp [cwd, cwdR, h0', h1, h2]
+
+/-- whatever glibc's getcwd left in the buffer when it failed (paths ≥ PATH_MAX go through its fallback,
+which writes inside the buffer before answering ERANGE): same return code and `*size`, and uv_cwd adds no
+store of its own on that path, so every store stays below `size` -/
+theorem cwd_with_getcwd_residue (v : List Byte) (size : Nat) (residue : Writes)
+    (h : ∀ p ∈ residue, p.1 < size) :
+    (cwdR v size residue).rc = (cwd v size).rc ∧ (cwdR v size residue).size = (cwd v size).size ∧
+    ∀ p ∈ (cwdR v size residue).writes, p.1 < size :=
+  ⟨(cwdR_answer v size residue).1, (cwdR_answer v size residue).2, cwdR_bounded v size residue h⟩
 
 /-- the property as the record states it, for uv_cwd without the PATH_MAX bound: refuted by the theorem above -/
 def cwd_full_statement : Prop :=
